@@ -407,3 +407,70 @@ Proof.
   split; [cbn; lia|]. split; [lia|]. split; [exact ex_imeshF_L|]. split; [exact ex_imeshF_R|].
   split; [intros; simpl; lia|]. split; [lia|]. split; [lia|]. split; [lia|]. exact ex_imeshF_values.
 Qed.
+
+(* Mesh1D::get_interpolated_vars at binary64 AT A NODE k other than the last: node coordinates on a grid 2^e no finer
+   than the window, ANY finite nodal data, ANY cell widths: the nodal values of node k are returned exactly (the float
+   itself unless it is a zero) as soon as the slopes of cell k are finite -- the winning cell is cell k with x - xl = 0.
+   At the LAST node the result is left + ((right - left)/w) * w, equal to `right` only up to rounding unless w is a
+   power of two (interp_exact_float): for nodes 0, 49 and data 0, 1 it is 1 - 2^-53 (interp_last_node_inexact). *)
+Theorem interp_node_exact_float : forall (m : mesh1 AF PrimFloat.float) (x : PrimFloat.float) (X : nat -> Z) (e : Z) (k : nat),
+  let n := length (m1_nodes m) in
+  let xs := fun i => nth i (m1_nodes m) 0%float in
+  let L := fun v => nth v (nth k (m1_vars m) []) 0%float in
+  let Rr := fun v => nth v (nth (k + 1) (m1_vars m) []) 0%float in
+  wf1 m -> (k + 1 < n)%nat ->
+  (forall i, (i < n)%nat -> ffinite (xs i) /\ FR (xs i) = (IZR (X i) * bpow radix2 e)%R) ->
+  (forall i, (i + 1 < n)%nat -> (X i < X (i + 1)%nat)%Z) ->
+  ffinite x -> FR x = FR (xs k) ->
+  (forall i, (i < n)%nat -> (Z.abs (X i - X k) < 2 ^ 53)%Z) ->
+  (-23 <= e <= 971)%Z ->
+  (forall v, (v < m1_nvars m)%nat -> ffinite (L v) /\ ffinite ((Rr v - L v) / (xs (k + 1)%nat - xs k))%float) ->
+  exists r, interp1 (A := AF) Params.MESH_SNAP m x = Ok r /\ length r = m1_nvars m /\
+    forall v, (v < m1_nvars m)%nat ->
+      ffinite (nth v r 0%float) /\ FR (nth v r 0%float) = FR (L v) /\
+      (FR (L v) <> 0%R -> nth v r 0%float = L v).
+Proof.
+  intros m x X e k n xs L Rr Hwf Hk HX Hinc Fx Rx Hb He Hq.
+  exact (interp_node_exact_float_lemma m x X e k Hwf Hk HX Hinc Fx Rx Hb He Hq).
+Qed.
+Check interp_node_exact_float : forall (m : mesh1 AF PrimFloat.float) (x : PrimFloat.float) (X : nat -> Z) (e : Z) (k : nat),
+  let n := length (m1_nodes m) in
+  let xs := fun i => nth i (m1_nodes m) 0%float in
+  let L := fun v => nth v (nth k (m1_vars m) []) 0%float in
+  let Rr := fun v => nth v (nth (k + 1) (m1_vars m) []) 0%float in
+  wf1 m -> (k + 1 < n)%nat ->
+  (forall i, (i < n)%nat -> ffinite (xs i) /\ FR (xs i) = (IZR (X i) * bpow radix2 e)%R) ->
+  (forall i, (i + 1 < n)%nat -> (X i < X (i + 1)%nat)%Z) ->
+  ffinite x -> FR x = FR (xs k) ->
+  (forall i, (i < n)%nat -> (Z.abs (X i - X k) < 2 ^ 53)%Z) ->
+  (-23 <= e <= 971)%Z ->
+  (forall v, (v < m1_nvars m)%nat -> ffinite (L v) /\ ffinite ((Rr v - L v) / (xs (k + 1)%nat - xs k))%float) ->
+  exists r, interp1 (A := AF) Params.MESH_SNAP m x = Ok r /\ length r = m1_nvars m /\
+    forall v, (v < m1_nvars m)%nat ->
+      ffinite (nth v r 0%float) /\ FR (nth v r 0%float) = FR (L v) /\
+      (FR (L v) <> 0%R -> nth v r 0%float = L v).
+Print Assumptions interp_node_exact_float.
+Example interp_node_exact_float_nonvacuous :
+  let m := ex_imesh49 in
+  let n := length (m1_nodes m) in
+  let xs := fun i => nth i (m1_nodes m) 0%float in
+  let L := fun v => nth v (nth 0 (m1_vars m) []) 0%float in
+  let Rr := fun v => nth v (nth (0 + 1) (m1_vars m) []) 0%float in
+  wf1 m /\ (0 + 1 < n)%nat /\
+  (forall i, (i < n)%nat -> ffinite (xs i) /\ FR (xs i) = (IZR (ex_i49X i) * bpow radix2 0)%R) /\
+  (forall i, (i + 1 < n)%nat -> (ex_i49X i < ex_i49X (i + 1)%nat)%Z) /\
+  ffinite 0%float /\ FR 0%float = FR (xs 0%nat) /\
+  (forall i, (i < n)%nat -> (Z.abs (ex_i49X i - ex_i49X 0) < 2 ^ 53)%Z) /\
+  (-23 <= 0 <= 971)%Z /\
+  (forall v, (v < m1_nvars m)%nat -> ffinite (L v) /\ ffinite ((Rr v - L v) / (xs (0 + 1)%nat - xs 0%nat))%float) /\
+  interp1 (A := AF) Params.MESH_SNAP m 0%float = Ok [0%float] /\
+  (* and the last node of the same mesh is NOT reproduced *)
+  (exists r, interp1 (A := AF) Params.MESH_SNAP m 49%float = Ok [r] /\
+             PrimFloat.eqb r 1%float = false /\ PrimFloat.ltb r 1%float = true).
+Proof.
+  cbv zeta. split; [exact ex_imesh49_wf|]. split; [cbn; lia|]. split; [exact ex_imesh49_nodes|].
+  split; [intros i Hi; destruct i as [|i]; [cbn; lia|cbn in Hi; lia]|].
+  split; [vm_compute; reflexivity|]. split; [reflexivity|].
+  split; [intros i Hi; do 2 (destruct i as [|i]; [cbn; lia|]); cbn in Hi; lia|].
+  split; [lia|]. split; [exact ex_imesh49_slopes|]. exact interp_last_node_inexact.
+Qed.
